@@ -404,6 +404,14 @@ def run(ctx):
         fi = ctx.func(q)
         S = ctx.sval(fi)
         msg = fi.call_params()[0]
+        # RFC 7296 2.17: "initiator" and "responder" of the KEYMAT split are those of THIS exchange (a CHILD_SA created or rekeyed by
+        # the original responder has that peer as initiator): the role handed to the kernel installation is fixed by the function,
+        # never read from the IKE_SA
+        inst = S.calls_to(qual='xfrm.Xfrm.create_child_sa')
+        ctx.check(len(inst) >= 1 and all(c_.args.get('is_initiator') == const(role == 'initiator') for c_ in inst), 'K4',
+                  '%s: the keys are handed to the kernel with the role of this exchange (is_initiator=%s), whatever the role in the IKE_SA'
+                  % (fi.name, role == 'initiator'), key=('K4', q, 'exchange-role'), site=ctx.site(fi, fi.node),
+                  detail={'found': [tq.text(c_.args.get('is_initiator', NONE), 80) for c_ in inst]})
         for c in S.calls_to(qual=gc.qual):
             nsites += 1
             from ..sval import subst_params
